@@ -938,6 +938,14 @@ def krome_reset(ctx, pkg, rule="R4"):
                 # a Reaction INSTANCE was parsed elsewhere: nothing is read here, nothing to reset
                 if c[0] == "call" and c[1] == ("global", "isinstance") and len(c[2]) == 2 and c[2][0][0] == "param" and c[2][1] == ("global", "Reaction"):
                     continue
+                # a compound condition (e.g. what is left of an `unknown format -> raise` guard clause) that always holds when a
+                # string is read and its format class exists skips nothing: propositional consequence of those two facts
+                from ..valueflow import guards_satisfiable, walk as _walk
+                given = [(recv, True)] + [(x, False) for x in dict.fromkeys(y for y in _walk(c) if isinstance(y, tuple) and len(y) == 4 and y[0] == "call"
+                                                                            and y[1] == ("global", "isinstance") and len(y[2]) == 2 and y[2][0][0] == "param"
+                                                                            and y[2][1] == ("global", "Reaction"))]
+                if not guards_satisfiable(given, [(c, not pol)]):
+                    continue
                 extra.append(_guard_text([(c, pol)]))
             ctx.check(not extra, rule, f"Network.{mname}:initialize for every file", (NF, f.line),
                       "the reset depends on nothing but the existence of the format class" if not extra else
